@@ -20,7 +20,7 @@ theorem C14_gen_idTest :
 
 /-- `Fault.dump` / `Fault.response` apply the forced id under a truthiness test (model: `faultDumpWith`). -/
 theorem C14_gen_faultForcedId :
-    Generated.faultForcedIdTest = some ("truthy", "truthy") := by decide
+    Generated.faultForcedIdTest = some ("not-none", "not-none") := by decide
 
 /-- `Payload.response` stores its `result` parameter as it is (model: `response`). -/
 theorem C14_gen_responseResult :
